@@ -6,6 +6,8 @@ package c08
 import (
 	"encoding/json"
 	"fmt"
+	"os"
+	"strconv"
 	"strings"
 	"sync"
 
@@ -428,6 +430,9 @@ func describeID(p *cfjs.Program, id int) (res string, inRet bool) {
 			if n.ID == id && n.K == cfjs.Log {
 				res, inRet = region, ret
 			}
+			if n.ID == id && n.K == cfjs.Try { // the "c<id>:<value>" event logged on entry of its catch clause
+				res, inRet = "catch", ret
+			}
 			walkIter(n, ret)
 			switch n.K {
 			case cfjs.Try:
@@ -457,7 +462,7 @@ func eventOwner(p *cfjs.Program, ev string) (owner string, inRet bool) {
 		fmt.Sscanf(ev[1:], "%d", &id)
 		owner, _ = describeID(p, id)
 		return owner, true
-	case "next":
+	case "next", "catch":
 		fmt.Sscanf(ev[1:], "%d", &id)
 		return describeID(p, id)
 	}
@@ -479,10 +484,6 @@ func checkFault(s Spec, p *cfjs.Program, src string, kind, k int, nativeMk bool)
 	c.Expected = cfjs.Result{Events: ri.res.Events[:e.firedLen], Outcome: want}
 	pre := "fault=" + faultNames[kind] + "|" + flavour(nativeMk)
 	_, inRet := eventOwner(p, ri.res.Events[e.firedLen-1])
-	if inRet && kind == faultOverflow && (len(ri.res.Events) > e.firedLen || ri.res.Outcome != want) {
-		return pre + "raised inside an iterator's return(): swallowed",
-			fmt.Sprintf("a StackOverflowError raised (probe %d) inside an iterator's return() method that was called to close the iterator is swallowed: outcome %q, events after the fault %v; program:\n%s", c.FaultAt, ri.res.Outcome, ri.res.Events[e.firedLen:], src), c, true
-	}
 	// 1. nothing of the program may run after an uncatchable fault
 	// (An interrupt is only noticed at the next VM instruction: Go-native next()/return() methods that an
 	// all-native loop - a built-in consumer, or the unwinding of a JS exception closing several native iterators -
@@ -492,13 +493,30 @@ func checkFault(s Spec, p *cfjs.Program, src string, kind, k int, nativeMk bool)
 	nativeLoop := kind == faultInterrupt && nativeMk
 	for _, ev := range ri.res.Events[e.firedLen:] {
 		k := evKind(ev)
-		if nativeLoop && (k == "next" || k == "return()" && firing != "log") {
+		if nativeLoop && (k == "next" || k == "return()" && firing != "log" && firing != "catch") {
 			continue
 		}
-		nativeLoop = false
+		if inRet {
+			break // classified below
+		}
 		owner, _ := eventOwner(p, ev)
 		return pre + "ran " + k + "@" + ownerGroup(owner),
 			fmt.Sprintf("after an uncatchable %s injected at probe %d, the program still ran %s (%s of %s): events after the fault %v; program:\n%s", faultNames[kind], c.FaultAt, ev, k, owner, ri.res.Events[e.firedLen:], src), c, true
+	}
+	if inRet {
+		ran := false
+		nl := kind == faultInterrupt && nativeMk
+		for _, ev := range ri.res.Events[e.firedLen:] {
+			k := evKind(ev)
+			if nl && (k == "next" || k == "return()" && firing != "log" && firing != "catch") {
+				continue
+			}
+			ran = true
+		}
+		if ran || kind == faultOverflow && ri.res.Outcome != want {
+			return pre + "raised inside an iterator's return(): swallowed",
+				fmt.Sprintf("an uncatchable %s raised (probe %d) inside an iterator's return() method that was called to close the iterator is swallowed: outcome %q, events after the fault %v; program:\n%s", faultNames[kind], c.FaultAt, ri.res.Outcome, ri.res.Events[e.firedLen:], src), c, true
+		}
 	}
 	// 2. the error must reach the host as such. (An interrupt whose flag is raised when no further VM instruction
 	// is executed is legitimately never reported, so this is demanded of stack overflows only.)
@@ -656,10 +674,19 @@ func run(r *core.Run) {
 		steps = append(steps, step{"faults", 2, core}, step{"diff", 3, core}, step{"cold", 3, core})
 	} else {
 		steps = append(steps, step{"faults", 2, full}, step{"diff", 3, full}, step{"cold", 3, full}, step{"native", 3, core},
-			step{"faults", 3, core}, step{"diff", 4, core}, step{"cold", 4, core}, step{"distinct", 5, core})
+			step{"diff", 4, core}, step{"cold", 4, core}, step{"faults", 3, core}, step{"distinct", 5, core})
 	}
+	if n, _ := strconv.Atoi(os.Getenv("VERIF_C08_SKIP_STEPS")); n > 0 && n < len(steps) {
+		// development aid: resume a long signature-collection run after its first n steps (the run is then
+		// reported as not exhaustive)
+		steps = steps[n:]
+		complete = false
+		r.Set("skipped_steps", n)
+		defer r.Exhaustive(false)
+	}
+	cut := false
 	for _, st := range steps {
-		if !complete {
+		if cut {
 			break
 		}
 		sp := newSpace(st.d, st.alpha)
@@ -667,17 +694,21 @@ func run(r *core.Run) {
 		if len(st.alpha) != len(full) {
 			name = "core"
 		}
+		ok := true
 		switch st.kind {
 		case "diff":
-			complete = runDepth(r, bounds, sp, name, false, false)
+			ok = runDepth(r, bounds, sp, name, false, false)
 		case "native":
-			complete = runDepth(r, bounds, sp, name, true, false)
+			ok = runDepth(r, bounds, sp, name, true, false)
 		case "distinct":
-			complete = runDepth(r, bounds, sp, name, false, true)
+			ok = runDepth(r, bounds, sp, name, false, true)
 		case "faults":
-			complete = runFaults(r, bounds, sp, name)
+			ok = runFaults(r, bounds, sp, name)
 		case "cold":
-			complete = runCold(r, bounds, sp, name)
+			ok = runCold(r, bounds, sp, name)
+		}
+		if !ok {
+			cut, complete = true, false
 		}
 	}
 	r.Set("bounds_completed", bounds)
